@@ -299,7 +299,10 @@ def r1_conservation(ctx):
     allowed = {CH + 'ChannelDropBehaviour::handle', 'des::net::runtime::events::MessageExitingConnection::handle_with_sink'} | \
         {g.key for g in P.scope_of(CH + 'ChannelDropBehaviour::handle')} | {g.key for g in P.scope_of('des::net::runtime::events::MessageExitingConnection::handle_with_sink')}
     ctx.floor('functions with explicit message drops (policy sites)', len({s.fn.key for s in sites}), 2)
+    from .C09 import _active_atom
     for s in sites:
+        if s.fn.key not in allowed and any(_active_atom(a, False, P) for _, a in s.fn.guard_atoms(s.b)):
+            continue    # the inactive-owner rule applied at delivery: a message for a module that is not active is discarded
         ctx.check(s.fn.key in allowed, 'explicit-drop-site:%s' % s.fn.key, 'messages are explicitly dropped only by the channel policy and the inactive-owner transit rule', s.where())
 
 
